@@ -166,6 +166,20 @@ impl<S> IndexMap<S> {
 		Self::default()
 	}
 
+	/// Verification hook: the positions held by each bucket (`rep` first, then `other`).
+	#[cfg(json_syntax_verif)]
+	pub fn verif_dump(&self) -> Vec<(usize, Vec<usize>)> {
+		let mut result = Vec::new();
+		unsafe {
+			for bucket in self.table.iter() {
+				let indexes = bucket.as_ref();
+				result.push((indexes.rep, indexes.other.clone()));
+			}
+		}
+
+		result
+	}
+
 	pub fn contains_duplicate_keys(&self) -> bool {
 		unsafe {
 			for bucket in self.table.iter() {
